@@ -360,7 +360,7 @@ func buildRegistry() {
 	wrapSeed := func() [][]byte {
 		wt, err := gssapi.NewInitiatorWrapToken([]byte("payload bytes"), key17)
 		if err != nil {
-			engine.Fatal("wrap token: %v", err)
+			engine.FailValid("gssapi.NewInitiatorWrapToken", err)
 		}
 		b, _ := wt.Marshal()
 		return [][]byte{b, hx("050401ff000c000000000000575e85d601010000853b728d5268525a1386c19f")[0]}
@@ -378,7 +378,7 @@ func buildRegistry() {
 	micSeed := func() [][]byte {
 		mt, err := gssapi.NewInitiatorMICToken([]byte("payload bytes"), key17)
 		if err != nil {
-			engine.Fatal("mic token: %v", err)
+			engine.FailValid("gssapi.NewInitiatorMICToken", err)
 		}
 		b, _ := mt.Marshal()
 		return [][]byte{b}
@@ -478,7 +478,7 @@ func buildRegistry() {
 		c.AddAuthzAttribute("S-1-5-21-1")
 		b, err := c.Marshal()
 		if err != nil {
-			engine.Fatal("credentials marshal: %v", err)
+			engine.FailValid("Credentials.Marshal", err)
 		}
 		return [][]byte{b}
 	}
